@@ -263,7 +263,7 @@ func runVideo(rep *report.Report, h265 bool) {
 	}
 	maxLen := 2
 	if rep.Thorough() {
-		maxLen = 3
+		maxLen = 4
 	}
 	// all unit sequences up to maxLen
 	var seqs [][]int
